@@ -168,6 +168,7 @@ func processRequest(msg *message.Message, data *HandlingDataManager) (action.Act
 			data.policiesServices,
 			data.diagnosisWorker,
 		)
+		verifhook.Point("mh.policies", "dir", "request", "id", args.ID, "policies", policiesData)
 	}
 	log.Trace().Str("request-id", args.ID).Msg("On request finished")
 	return actions, err
@@ -207,6 +208,7 @@ func processResponse(msg *message.Message, data *HandlingDataManager) (action.Ac
 			data.policiesServices,
 			data.diagnosisWorker,
 		)
+		verifhook.Point("mh.policies", "dir", "response", "id", args.ID, "policies", policiesData)
 	}
 	log.Trace().Str("response-id", args.ID).Msg("On response finished")
 	return actions, err
